@@ -16,8 +16,9 @@ RULE = ("seeded random programs: 1-6 classes in hierarchies of depth 1-5 (single
         "small pools so that collisions happen; programs that cannot be called successfully at all are discarded. Each "
         "program is written to real source files (four in ten split over two modules: a library with the first top-level items "
         "and a module with the rest that imports only the names its own text uses), resolved with get_signature_parameters and add_class_arguments, and "
-        "instantiated with up to 40 keyword sets. Non-trivial: the resolved class forwards **kwargs at least once; "
-        "distinct = distinct (program text, target)")
+        "instantiated with up to 40 keyword sets; in half of the cases one to three other callables of the same program are resolved "
+        "first in the same process (history: the answer must be the stand-alone one). Non-trivial: the resolved class forwards **kwargs at least once; "
+        "distinct = distinct (program text, target, history)")
 TRUSTED = [
     "Coq 8.16.1 kernel + vm_compute",
     "tie/impl/c13_kwargs.py (observation of the real resolver / parser / interpreter), the DSL-to-Python renderer and the "
@@ -26,6 +27,9 @@ TRUSTED = [
     "semantics coq/Spec/KwargsSpec.v (CPython keyword binding), each tied by per-case agreement evaluated inside Coq",
 ]
 ASSUMPTIONS = [
+    "history: only resolutions of other callables of the SAME program earlier in the same process (get_signature_parameters "
+    "on up to four of them, any order) are exercised; state carried over from other programs, threads, or parser objects is not",
+    "programs live in one or two modules; the second imports from the first only the names its own text uses",
     "only programs of the DSL: int/float/str annotations, literal defaults, **kwargs last, no *args, no decorators, "
     "no conditionals, at most one forwarding use of **kwargs per body",
     "CPython 3.12 keyword binding as modelled by Spec.call (validated per case against the interpreter)",
@@ -191,9 +195,11 @@ def g_rparam(p):
 
 def term(case, obs):
     trials = g_list([g_pair(g_list([g_str(x) for x in s], "str"), OUT[o]) for s, o in obs["trials"]], "(list str * outcome)")
-    return "{| c_prog := %s; c_cls := %s; c_mro := %s; c_offered := %s; c_parser := %s; c_trials := %s |}" % (
+    return "{| c_prog := %s; c_cls := %s; c_mro := %s; c_offered := %s; c_alone := %s; c_parser := %s; c_trials := %s |}" % (
         g_prog(case["prog"]), g_nat(case["target"]), g_list([g_nat(x) for x in obs["mro"]], "nat"),
-        g_list([g_rparam(p) for p in obs["offered"]], "rparam"), g_list([g_str(x) for x in obs["parser"]], "str"), trials)
+        g_list([g_rparam(p) for p in obs["offered"]], "rparam"),
+        g_list([g_rparam(p) for p in obs.get("alone", obs["offered"])], "rparam"),
+        g_list([g_str(x) for x in obs["parser"]], "str"), trials)
 
 
 # ------------------------------------------------------------------------------------------------
@@ -339,6 +345,10 @@ def gen_fn(rng, prog, cls_idx, is_init, cache, kw_prob=0.8):
                 given.append(g)
         call = ["call", c, npos, given]
         body.insert(rng.randint(0, len(body)), call)
+        if vis and rng.random() < 0.15:
+            # a pop/get of a name the callee also accepts, with its own default, before or after the call: the two
+            # occurrences are merged by group_parameters (conditional parameter when type/default differ)
+            body.insert(rng.randint(0, len(body)), ["pg", rng.random() < 0.5, rng.choice(vis), rng.choice([0, 0, 1, 2]), rng.randrange(4)])
         if given and rng.random() < 0.12:
             # a pop/get of a name that is also hard-coded at the call, before or after it (statement order matters)
             body.insert(rng.randint(0, len(body)), ["pg", rng.random() < 0.7, rng.choice(given), 0, rng.randrange(4)])
@@ -519,11 +529,22 @@ def gen_libapp(rng):
         if rng.random() < 0.15:
             c["meths"].append([0, plain(2) if rng.random() < 0.5 else forwarding(i, rng.choice(helpers), nmax=1)])
         prog["order"].append(["c", i])
+        if rng.random() < 0.6:
+            # another user of a helper: a function that forwards to it and reads one of the helper's names itself, with its
+            # own default, before or after the call (the merged parameter is a conditional one in THIS function only)
+            h = rng.choice(helpers)
+            fn = forwarding(None, h, nmax=1)
+            vis, _ = visible_params(prog, h, None, cache)
+            if vis and rng.random() < 0.8:
+                fn["body"] = [s for s in fn["body"] if s[0] == "call"]
+                fn["body"].insert(0 if rng.random() < 0.35 else 1, ["pg", rng.random() < 0.4, rng.choice(vis), rng.choice([0, 0, 1, 2]), rng.randrange(4)])
+            prog["funcs"].append(fn)
+            prog["order"].append(["f", len(prog["funcs"]) - 1])
     return prog
 
 
 def gen_prog(rng):
-    if rng.random() < 0.15:
+    if rng.random() < 0.2:
         return gen_libapp(rng)
     if rng.random() < 0.3:
         return gen_coop(rng)
@@ -598,6 +619,12 @@ def mk_case(rng, prog, target):
             case["split"] = prog["lib"]
     elif pos >= 1 and rng.random() < 0.4:
         case["split"] = rng.randint(1, pos)
+    # history: in half of the cases one to three OTHER callables of the program (functions, classes) are resolved first in
+    # the same process, in a random order; the model is a function of the program alone, so the answer for the target
+    # must be the stand-alone one
+    others = ["f%d" % i for i in range(len(prog["funcs"]))] + ["C%d" % i for i in range(len(prog["classes"])) if i != target]
+    if others and rng.random() < (0.8 if "lib" in prog else 0.5):
+        case["before"] = rng.sample(others, rng.randint(1, min(4 if "lib" in prog else 3, len(others))))
     return case
 
 
@@ -657,6 +684,13 @@ def fixed_cases():
     H = {"bases": [1], "init": {"params": [["h", 0, [0, 2]]], "kw": True, "body": [["call", ["super"], 0, []]]}, "meths": []}
     cases.append({"prog": {"funcs": [], "classes": [W, K, H], "order": [["c", 0], ["c", 1], ["c", 2]]},
                   "target": 2, "masks": [1, 2, 3, 0], "split": 2})
+    # history: a function that forwards to f0 and afterwards reads one of f0's names with another default is resolved
+    # first; the class that forwards to the same f0 must still be offered f0's own defaults
+    G0 = {"params": [["t", 0, [0, 1]], ["u", 2, [2, 0]]], "kw": False, "body": []}
+    G1 = {"params": [["p", 0, [0, 2]]], "kw": True, "body": [["call", ["func", 0], 0, []], ["pg", False, "t", 0, 3]]}
+    GC = {"bases": [], "init": {"params": [["r", 0, [0, 2]]], "kw": True, "body": [["call", ["func", 0], 0, []]]}, "meths": []}
+    cases.append({"prog": {"funcs": [G0, G1], "classes": [GC], "order": [["f", 0], ["f", 1], ["c", 0]]},
+                  "target": 0, "masks": [1, 2, 3, 0], "before": ["f1"]})
     return cases
 
 
@@ -681,12 +715,23 @@ def generate(rng, tier):
 
 def observe(cases):
     payloads = [{"sources": sources(c), "target": "C%d" % c["target"], "universe": universe(c["prog"]),
-                 "masks": c["masks"]} for c in cases]
+                 "masks": c["masks"], "before": c.get("before", [])} for c in cases]
     k = max(1, min(16, len(cases) // 25))  # few cases (shrinking, replays): few interpreter start-ups
     res = run_impl_parallel("c13_kwargs.py", [{"cases": payloads[i::k]} for i in range(k)])
     out = [None] * len(cases)
     for i, r in enumerate(res):
         out[i::k] = r
+    # cases with a history: the stand-alone answer of the implementation for the same target, from pristine processes
+    hist = [i for i, c in enumerate(cases) if c.get("before")]
+    if hist:
+        light = [dict(payloads[i], before=[], light=True) for i in hist]
+        k2 = max(1, min(8, len(light) // 40))
+        res2 = run_impl_parallel("c13_kwargs.py", [{"cases": light[j::k2]} for j in range(k2)])
+        alone = [None] * len(light)
+        for j, r in enumerate(res2):
+            alone[j::k2] = r
+        for i, a in zip(hist, alone):
+            out[i]["alone"] = a["offered"]
     return out
 
 
@@ -701,7 +746,7 @@ def forwards(prog, target):
 def nontrivial_key(case, obs):
     if not forwards(case["prog"], case["target"]):
         return None
-    return "\n#----\n".join(sources(case)) + "#%d" % case["target"]
+    return "\n#----\n".join(sources(case)) + "#%d" % case["target"] + "<" + ",".join(case.get("before", []))
 
 
 def category(case, obs):
@@ -716,8 +761,9 @@ def category(case, obs):
 def describe(case, obs):
     src = sources(case)
     return {"source": src[0] if len(src) == 1 else "# ---- file lib.py\n%s\n# ---- file app.py ({LIB} = lib)\n%s" % tuple(src),
-            "target": "C%d" % case["target"],
+            "target": "C%d" % case["target"], "resolved_before_in_the_same_process": case.get("before", []),
             "offered_by_get_signature_parameters": [[p["name"], p["ann"], p["default"]] for p in obs["offered"]],
+            "offered_stand_alone_in_a_pristine_process": [[p["name"], p["ann"], p["default"]] for p in obs.get("alone", obs["offered"])],
             "add_class_arguments": obs["parser"], "mro": obs["mro"],
             "calls": [[" ".join(s), o] for s, o in obs["trials"]]}
 
@@ -735,13 +781,23 @@ def _variants_fn(fn):
                 yield dict(fn, body=fn["body"][:i] + [[s[0], s[1], s[2], s[3][:j] + s[3][j + 1:]]] + fn["body"][i + 1:])
 
 
+SHRINK_BUDGET_S = 75   # total wall time spent shrinking in one run of the check (all violations together)
+_SHRINK_T0 = None
+
+
 def shrink(case):
     """Smaller programs that still fail FOR A REASON THAT IS NOT A LISTED FINDING: the framework keeps any candidate
     whose spec fails, which would let the shrinker drift from a new failure into a known one (e.g. get-then-forward);
     so the candidates are judged here first and the ones explained by a listed class are dropped."""
     import sys
+    import time
     from tie import framework as fw
-    cands = [c for c in _shrink(case) if runnable(c["prog"], c["target"])][:60]
+    global _SHRINK_T0
+    if _SHRINK_T0 is None:
+        _SHRINK_T0 = time.time()
+    if time.time() - _SHRINK_T0 > SHRINK_BUDGET_S:   # the unshrunk failing input is reported as it is
+        return
+    cands = [c for c in _shrink(case) if runnable(c["prog"], c["target"])][:40]
     if not cands:
         return
     known = fw.load_known_findings(PROP)
@@ -756,6 +812,11 @@ def shrink(case):
 def _shrink(case):
     import copy
     prog = case["prog"]
+    before = case.get("before", [])
+    for i in range(len(before)):
+        yield dict(case, before=before[:i] + before[i + 1:])
+    if case.get("split"):
+        yield dict(case, split=0)
     for i, f in enumerate(prog["funcs"]):
         for v in _variants_fn(f):
             p = copy.deepcopy(prog)
@@ -799,11 +860,15 @@ META = {
                   "(group_parameters), and everything outside klass_top = 0 (classes that inherit __init__, methods overridden "
                   "below the class whose __init__ calls them, hard-coded names the callee does not accept, the listed findings). "
                   "Both semantics are hand-written and tied only by the correspondence run: each generated program is written to a "
-                  "real source file, resolved with get_signature_parameters and add_class_arguments and really instantiated with up "
+                  "real source file (or two modules), resolved with get_signature_parameters and add_class_arguments -- in half of the "
+                  "cases after other callables of the program were resolved in the same process -- and really instantiated with up "
                   "to 40 keyword sets; Coq checks that Model.resolve reproduces the offered list (name, annotation, default, kind, "
                   "tuple origin), that the model's C3 gives type.mro() and that Spec.call reproduces every observed outcome. "
                   "Bodies with several forwarding uses (conditional parameters across calls), *args, self._kw = kwargs, constant "
-                  "conditionals, super(Cls, self), stubs/pydantic/attrs resolvers and class-instance defaults are not modelled.",
+                  "conditionals, super(Cls, self), stubs/pydantic/attrs resolvers and class-instance defaults are not modelled. "
+                  "The statement is per program; history is correspondence-only: other callables of the program are resolved first "
+                  "in the same process and the answer must equal both the model's and the one a pristine process gives "
+                  "(no theorem speaks about process state).",
     "technique": "Rocq proof by induction on call-chain fuel over a program DSL with two executable semantics (resolver model, CPython "
                  "keyword binding) + differential correspondence against the real resolver, parser and interpreter, judged in Coq",
 }
